@@ -24,6 +24,7 @@ func init() {
 		"vpBytesCap":     vpBytesCap,
 		"vpStr":          vpStr,
 		"vpStrN":         vpStrN,
+		"vpConstStr":     vpConstStr,
 		"vpBytesN":       vpBytesN,
 		"vpAssume":       vpAssume,
 		"vpAssert":       vpAssert,
@@ -268,4 +269,19 @@ func vpBytesN(e *Engine, st *State, fn *ssa.Function, a []Value, s ssa.Instructi
 	return e.forkOnLen(st, n, 300, func(st2 *State, k uint64) []Outcome {
 		return vpBytesN(e, st2, fn, []Value{e.c64(k)}, s)
 	})
+}
+
+// vpConstStr(n, c): the string of n copies of byte c (concrete; no tape slot).
+func vpConstStr(e *Engine, st *State, fn *ssa.Function, a []Value, s ssa.Instruction) []Outcome {
+	n := constIntArg(a[0], "vpConstStr length")
+	c, ok := a[1].(*Term).ConstVal()
+	if !ok {
+		panic(unsupported("vpConstStr byte must be constant"))
+	}
+	v := make([]*Term, n)
+	ct := e.tm.BV(c, 8)
+	for i := range v {
+		v[i] = ct
+	}
+	return one(st, &StrV{arr: &ArrVec{v}, off: e.c64(0), len: e.c64(uint64(n)), max: n})
 }
